@@ -26,7 +26,7 @@ EXPLANATION = (
     "hands every input edge to the kernel (no first-seen de-duplication) so that the kernel's duplicate-edge rule "
     "(minimum) matches the Python implementation's; undirected expansion mirrors both orientations; (O5) routing - "
     "the decorator forwards *args/**kwargs unchanged to either arm and falls back to Python when no adapter is "
-    "registered. NOT decided: algorithmic equivalence of the Rust kernels and the Python bodies (cross-language "
+    "registered; (O6) Kahn's bookkeeping in the Python topological sort counts every stored edge occurrence once (the kernel does); (G3) no Python implementation keeps state between calls. NOT decided: algorithmic equivalence of the Rust kernels and the Python bodies (cross-language "
     "semantics)."
 )
 
@@ -334,6 +334,10 @@ def run(ctx: Ctx):
     ctx.ob("C12-O5", "R18 routing", gb, "explicit 'python' never routes to rust; explicit 'rust' raises when unavailable", "if requested == 'python':\n        return 'python'" in tb and "raise ImportError" in tb, "", node=gb.node)
     ra = ctx.func("rust", "rust_adapter.decorator")
     ctx.ob("C12-O5", "R18 routing", ra, "rust_adapter registers the function under the given name and returns it unchanged", "_adapters[name] = fn" in ast.unparse(ra.node) and "return fn" in ast.unparse(ra.node), "", node=ra.node)
+    # O6 the Rust kernel counts every occurrence of an edge; so must the Python bookkeeping
+    from .c14 import check_kahn
+
+    check_kahn(ctx, "C12-O6")
     generic_sweeps(ctx)
 
 
@@ -394,6 +398,20 @@ def _v_infeasible_objective(tree):
     M.replace_expr(g, lambda e: isinstance(e, ast.Call) and M.src_has(e, "Status.INFEASIBLE"), lambda e: M.expr(ast.unparse(e).replace("float('inf')", "0")))
 
 
+def _v_adjacency_memo(tree):
+    g = M.find_func(tree, "dijkstra_edges")
+    M.replace_stmt(g, lambda s: isinstance(s, ast.For) and M.src_is(s.iter, "edges"), [])
+    M.replace_stmt(g, lambda s: isinstance(s, ast.AnnAssign) and M.src_is(s.target, "adj"), M.stmts("adj = _adjacency(n_nodes, edges)"))
+    idx = tree.body.index(g)
+    tree.body[idx:idx] = M.stmts("_last_adjacency = None\ndef _adjacency(n_nodes, edges):\n    global _last_adjacency\n    cached = _last_adjacency\n    if cached is not None and cached[0] is edges and cached[1] == n_nodes and cached[2] == len(edges):\n        return cached[3]\n    adj = [[] for _ in range(n_nodes)]\n    for u, v, w in edges:\n        adj[u].append((v, w))\n    _last_adjacency = (edges, n_nodes, len(edges), adj)\n    return adj")
+
+
+def _v_topo_successor_sets(tree):
+    g = M.find_func(tree, "topological_sort")
+    M.replace_expr(g, lambda e: M.src_is(e, "adjacency[v].append(w)"), M.expr("adjacency[v].add(w)"))
+    M.replace_expr(g, lambda e: M.src_is(e, "{v: [] for v in node_list}"), M.expr("{v: set() for v in node_list}"))
+
+
 def _t_reformat(tree):
     pass
 
@@ -426,6 +444,8 @@ VARIANTS = [
     M.Variant("kruskal adapter labels a forest OPTIMAL", AD, _v_kruskal_forest_status, "C12-O3"),
     M.Variant("decorator drops keyword arguments on the rust arm", RI, _v_wrapper_drops_kwargs, "C12-O5"),
     M.Variant("dijkstra adapter reports objective 0 for unreachable target", AD, _v_infeasible_objective, "C12-O3"),
+    M.Variant("dijkstra_edges memoises the adjacency lists of the last edge list in a module global (seed C12-C)", "solvor/dijkstra.py", _v_adjacency_memo, "C12-G3"),
+    M.Variant("topological_sort keeps successor sets but counts every edge occurrence in the in-degree (seed C12-D)", "solvor/scc.py", _v_topo_successor_sets, "C12-O6"),
     M.Variant("twin: reformat adapters", AD, _t_reformat, None),
     M.Variant("twin: reformat rust/__init__", RI, _t_reformat, None),
 ]
